@@ -103,6 +103,11 @@ def run(rep: Report, tier: str) -> None:
     sub8 = Report("C08", tier)
     c08.run(sub8, tier)
     rep.absorb(sub8, rh, ("C08.a", "C08.b", "C08.d"), "overdraft test")
+    from . import c07
+
+    sub7 = Report("C07", tier)
+    c07.run(sub7, tier)
+    rep.absorb(sub7, rh, ("C07.d",), "balances cut on the entry's own date like every other filter (an asset with lots but no balance makes open_positions fail)")
     engine.check_heap_typestate(rep, rh)
     engine.check_schedule_traversal(rep, rh)
     engine.check_chronological_input(rep, rh)
